@@ -77,7 +77,11 @@ class Rules(FDE.Rules):
             return -1.0 * self[MaxWorlds].modals[s] * track_count
 
         def group_score(self, target, /) -> float:
-            if target['candidate_score'] > 0:
+            score = target['candidate_score']
+            if score is None:
+                # Rank optimization is off, so candidates were not scored.
+                score = self.score_candidate(target)
+            if score > 0:
                 return 1.0
             s = self.sentence(target.node)
             si = s.lhs
